@@ -133,6 +133,12 @@ func (p *E4) RecvBlock(reply byte) (e4.Block, []byte, error) {
 	}
 	p.Write(e4.EOT)
 	raw := p.Pending()
+	// a bid the sender repeated (its T2 ran out at the very instant this peer answered) sits in front
+	// of the block: an ENQ cannot be a length byte (10..254), so it is skipped, not misread
+	for len(raw) > 0 && raw[0] == e4.ENQ {
+		p.Take(1)
+		raw = p.Pending()
+	}
 	if len(raw) == 0 {
 		return e4.Block{}, nil, fmt.Errorf("e4 peer: nothing after EOT")
 	}
